@@ -335,7 +335,7 @@ fn main() {
         push_dec_case(&b, "bytes", &mut cw, &mut rep, &mut hist, &mut distinct, &mut fails, &mut idx, &mut samples, pv_size, &mut max_ratio);
     }
     // deeper nesting, still in-process (well below any stack limit)
-    for k in [100usize, 400, 1500] {
+    for k in [60usize, 250] {
         let b = nested_headers(7, k, 1, &[0]);
         push_dec_case(&b, "bytes", &mut cw, &mut rep, &mut hist, &mut distinct, &mut fails, &mut idx, &mut samples, pv_size, &mut max_ratio);
         let b = nested_headers(8, k, 1, &[0]);
